@@ -658,3 +658,18 @@ M("C19", "request-timeout-min-with-pool", "connectionpool.py",
   "        if isinstance(timeout, Timeout):\n            return timeout.clone()", "        if isinstance(timeout, Timeout):\n            return timeout.clone() if timeout.total else self.timeout.clone()", rule="C19-R6")
 M("C19", "eagain-not-mapped", "connectionpool.py",
   "        if hasattr(err, \"errno\") and err.errno in _blocking_errnos:\n            raise ReadTimeoutError(", "        if hasattr(err, \"errno\") and err.errno in _blocking_errnos and url:\n            raise ReadTimeoutError(", rule="C19-R7")
+
+
+# --------------------------------------------------------------------------- seeded changes written by independent sub-agents (see /verif/seeded/)
+def S(prop, name, rule=None):
+    MUTANTS.append(dict(prop=prop, name="seed:" + name, patch=f"seeded/{prop}-{name}/patch.diff", rule=rule, benign=False))
+
+
+S("C01", "placeholder-only-with-conn", "C01-R1a")
+S("C02", "qsize-live-field", "C02-R3")
+S("C03", "is-connected-peek", "C03-R2")
+S("C04", "method-gate-only-on-forcelist", "C04-R5")
+S("C05", "manager-default-dropped", "C05-R1")
+S("C06", "strip-by-pool-identity", "C06-R1")
+S("C07", "match-only-when-we-disabled", "C07-R3")
+S("C18", "merge-truthiness", "C18-R8")
